@@ -401,7 +401,20 @@ func (s *Suite) watch(prop string, js func() []byte) {
 		}()
 	})
 	watchCur.Store(&watchSlot{start: time.Now(), prop: prop, js: js})
+	if journalPath != "" {
+		// journal mode (the driver runs a worker again this way after the process died): the
+		// case about to run is on disk before it runs
+		var b []byte
+		b = append(b, `{"prop":`...)
+		b = append(b, strconv.Quote(prop)...)
+		b = append(b, `,"case":`...)
+		b = append(b, js()...)
+		b = append(b, '}', '\n')
+		_ = os.WriteFile(journalPath, b, 0o644)
+	}
 }
+
+var journalPath = os.Getenv("VERIF_JOURNAL")
 
 func unwatch() { watchCur.Store(nil) }
 
